@@ -109,6 +109,10 @@ def _parts(tier):
     out.append(("q_change_mid_bar_and_ts_change", mk([(0, 4), (6, 8), (30, 3)], [(0, 3, 4), (12 + 24, 5, 8)], [(0, 12), (12, 36), (36, 36 + 8)], 44)))
     out.append(("ts_change_not_at_q_change", mk([(0, 6), (24, 4)], [(0, 2, 2), (12, 9, 8), (39, 7, 8)], [(0, 24), (24, 42), (42, 56)], 56)))
     out.append(("q_change_inside_pickup", mk([(0, 2), (2, 4)], [(0, 4, 4)], [(0, 6), (6, 22)], 22)))
+    out.append(("fifteen_eight_then_eighteen_sixteen", mk([(0, 4)], [(0, 15, 8), (60, 18, 16)], [(0, 30), (30, 60), (60, 78)], 78)))
+    out.append(("three_eight_full_first_bar", mk([(0, 4)], [(0, 3, 8)], [(0, 6), (6, 12), (12, 18)], 18)))
+    out.append(("two_two_pickup_of_three_quarters", mk([(0, 2)], [(0, 2, 2)], [(0, 6), (6, 14), (14, 22)], 22)))
+    out.append(("six_eight_pickup_of_five_eighths", mk([(0, 2)], [(0, 6, 8)], [(0, 5), (5, 11), (11, 17)], 17)))
     out.append(("irregular_5_8_7_8", mk([(0, 2)], [(0, 5, 8), (5, 7, 8)], [(0, 5), (5, 12), (12, 19)], 19)))
     # NOTE (DESIGN.md section 6, C02): parts whose first time point lies after timeline position 0 are not generated: the library
     # keeps the origin of such a part at position 0 (the origin shared by all parts of a score, which score-level note arrays rely
@@ -136,6 +140,12 @@ def bounded(b):
             if user is not None:
                 part.use_musical_beat(user)
             musical = user is not None
+            if musical:
+                # the musical beats in force: the user's value for the signature, else the documented default (2, 3, 4 for 6, 9, 12; the numerator otherwise)
+                tsl = list(part.iter_all(__import__("partitura").score.TimeSignature))
+                got_mb = [(t.beats, t.beat_type, t.musical_beats) for t in tsl]
+                want_mb = [(t.beats, t.beat_type, _expected(t, user)) for t in tsl]
+                b.case("beats/musical_beats_are_the_users_value_or_the_documented_default", got_mb == want_mb, case, "musical beats %r, expected %r" % (got_mb, want_mb))
             lo, hi = part.first_point.t, part.last_point.t
             pos = sorted(set(list(range(lo, min(hi, lo + 400) + 1)) + [hi] + [t for t in part._quarter_times if lo <= t <= hi]))
             ok, maps = b.guard("maps/no_exception", case, lambda: (part.quarter_map, part.beat_map, part.inv_quarter_map, part.inv_beat_map, part.quarter_duration_map))
